@@ -25,7 +25,11 @@ def run_case(args):
     if rc == "timeout":
         return {"rc": rc, "n": 0, "problems": [], "stats": {}}
     try:
-        n, problems, stats = modelcheck.check_models(case["script"], out)
+        sc0 = case["script"]
+        fc = sc0.find("(check-sat)")
+        # an assertion after a check-sat needs incremental mode: such a command is refused, the rest must behave as without it
+        legal = not ("(set-option :incremental false)" in sc0 and fc >= 0 and "(assert" in sc0[fc:])
+        n, problems, stats = modelcheck.check_models(sc0, out, expect_legal=legal)
     except Exception as e:
         n, problems, stats = 0, [{"what": f"model check machinery failed: {e!r}", "stdout": out[-800:]}], {}
     if rc not in (0, 1):
